@@ -53,6 +53,8 @@ func runVerb(req *verbReq) (resp verbResp) {
 	lib.SeedRandom(req.Seed)
 	options := cli.DefaultOptions()
 	argi := 0
+	// as climain does before any verb sees its arguments: "-xyz" -> "-x -y -z"
+	req.Args = lib.Getoptify(req.Args)
 	tr, err := setup.ParseCLIFunc(&argi, len(req.Args), req.Args, options, true)
 	if err != nil {
 		return verbResp{Ok: false, Err: "parse: " + err.Error()}
